@@ -6,12 +6,46 @@ import (
 	"grog/internal/zzverif/sym"
 )
 
-const labelAlpha = "ab./:-_A0"
+// Alphabets are small on purpose: the parsers distinguish only '/', ':', '.', and the
+// name character classes; one representative per class keeps the solver queries tiny
+// while every *shape* of string up to the bound is covered.
+const (
+	labelAlpha = "ab./:-_A0 "
+	pkgAlpha   = "ab/"
+	nameAlpha  = "ab.l_"
+	nameOK     = "abcdefghijklmnopqrstuvwxyzABCDEFGHIJKLMNOPQRSTUVWXYZ0123456789_-."
+)
+
+func bound(quick, thorough int) int {
+	if sym.Tier() == "thorough" {
+		return thorough
+	}
+	return quick
+}
+
+// cleanPkg: p is a clean relative package path: no empty components, no leading/trailing '/'.
+func cleanPkg(p string) bool {
+	return sym.And(sym.Not(sym.HasPrefix(p, "/")),
+		sym.And(sym.Not(sym.HasSuffix(p, "/")), sym.Not(sym.Contains(p, "//"))))
+}
+
+func validNameOracle(n string) bool {
+	return sym.And(sym.Matches(n, nameOK), sym.And(sym.Not(sym.StrEq(n, "")), sym.Not(sym.StrEq(n, "..."))))
+}
+
+// probe label: compared only, so SMT strings (rep A)
+func probeLabel() TargetLabel {
+	pkg := sym.StringAlpha("probe.pkg", bound(5, 7), pkgAlpha)
+	name := sym.StringAlpha("probe.name", bound(3, 4), nameAlpha)
+	sym.Assume(cleanPkg(pkg))
+	sym.Assume(validNameOracle(name))
+	return TargetLabel{Package: pkg, Name: name}
+}
 
 // L1: parse(print(parse s)) == parse s, for every accepted label text.
 func VerifC17_L1() {
 	cur := sym.StringNAlpha("cur", 2, "ab/.")
-	s := sym.StringNAlpha("s", 5, labelAlpha)
+	s := sym.StringNAlpha("s", bound(5, 7), labelAlpha)
 	l, err := ParseTargetLabel(cur, s)
 	if err != nil {
 		return
@@ -20,4 +54,189 @@ func VerifC17_L1() {
 	l2, err2 := ParseTargetLabel(cur, l.String())
 	sym.Assert(err2 == nil, "C17.L1.reparse-ok")
 	sym.Assert(l2 == l, "C17.L1.roundtrip")
+	// printing is canonical: //pkg:name
+	sym.Assert(l.String() == "//"+l.Package+":"+l.Name, "C17.L1.canonical")
+}
+
+// L2: //a/b means //a/b:b
+func VerifC17_L2() {
+	p := sym.StringNAlpha("p", bound(5, 7), "ab/.-")
+	l, err := ParseTargetLabel("x", "//"+p)
+	if err != nil {
+		return
+	}
+	sym.Reach("L2.accepted")
+	sym.Assert(l.Package == p, "C17.L2.pkg")
+	// the name is the last path component
+	sym.Assert(sym.Or(sym.HasSuffix(p, "/"+l.Name), sym.StrEq(p, l.Name)), "C17.L2.name-is-last-component")
+	sym.Assert(sym.Not(sym.Contains(l.Name, "/")), "C17.L2.name-no-slash")
+	l2, err2 := ParseTargetLabel("x", "//"+p+":"+l.Name)
+	sym.Assert(err2 == nil && l2 == l, "C17.L2.explicit-equivalent")
+	sym.Assert(l.CanBeShortened(), "C17.L2.can-be-shortened")
+}
+
+// L3: :x resolves against the current package ("." is the root)
+func VerifC17_L3() {
+	cur := sym.StringNAlpha("cur", 3, "ab/.")
+	n := sym.StringNAlpha("n", bound(4, 5), labelAlpha)
+	l, err := ParseTargetLabel(cur, ":"+n)
+	ok := validNameOracle(n)
+	sym.Assert(sym.Iff(err == nil, ok), "C17.L3.accept-iff-valid-name")
+	if err != nil {
+		return
+	}
+	sym.Reach("L3.accepted")
+	sym.Assert(l.Name == n, "C17.L3.name")
+	sym.Assert(sym.Or(sym.And(sym.StrEq(cur, "."), sym.StrEq(l.Package, "")),
+		sym.And(sym.Not(sym.StrEq(cur, ".")), sym.StrEq(l.Package, cur))), "C17.L3.pkg")
+}
+
+// L4: accepted names are exactly [A-Za-z0-9_.-]+ minus "..."; over all printable ASCII
+func VerifC17_L4() {
+	n := sym.StringN("n", bound(3, 4))
+	err := validateName(n)
+	sym.Assert(sym.Iff(err == nil, validNameOracle(n)), "C17.L4.name-charset")
+	if err == nil {
+		sym.Reach("L4.accepted")
+	} else {
+		sym.Reach("L4.rejected")
+	}
+}
+
+// L5: explicit //pkg:name parses to exactly (pkg, name) and rejects invalid names
+func VerifC17_L5() {
+	p := sym.StringNAlpha("p", bound(3, 4), "ab/.")
+	n := sym.StringNAlpha("n", bound(3, 4), "ab.:/_ ")
+	l, err := ParseTargetLabel("x", "//"+p+":"+n)
+	pHasColon := sym.Contains(p, ":")
+	sym.Assume(sym.Not(pHasColon))
+	sym.Assert(sym.Iff(err == nil, validNameOracle(n)), "C17.L5.accept-iff-valid-name")
+	if err == nil {
+		sym.Reach("L5.accepted")
+		sym.Assert(l.Package == p && l.Name == n, "C17.L5.components")
+	}
+}
+
+// P1: //p/... [:name] matches exactly package p and below, at component boundaries
+func VerifC17_P1() {
+	p := sym.StringNAlpha("p", bound(3, 5), pkgAlpha)
+	sym.Assume(cleanPkg(p))
+	form := sym.Choice("form", 4) // 0: //p/...  1: //p/...:n  2: //p/...:all  3: //p/...:...
+	n := ""
+	text := "//" + p + "/..."
+	if p == "" {
+		text = "//..."
+	}
+	switch form {
+	case 1:
+		n = sym.StringNAlpha("n", 2, nameAlpha)
+		sym.Assume(validNameOracle(n))
+		sym.Assume(sym.Not(sym.StrEq(n, "all")))
+		text += ":" + n
+	case 2:
+		text += ":all"
+	case 3:
+		text += ":..."
+	}
+	pat, err := ParseTargetPattern("cur", text)
+	sym.Assert(err == nil, "C17.P1.parses")
+	if err != nil {
+		return
+	}
+	l := probeLabel()
+	inPkg := sym.Or(sym.StrEq(p, ""), sym.Or(sym.StrEq(l.Package, p), sym.HasPrefix(l.Package, p+"/")))
+	nameOK := true
+	if form == 1 {
+		nameOK = sym.StrEq(l.Name, n)
+	}
+	sym.Reach("P1.checked")
+	sym.Assert(sym.Iff(pat.Matches(l), sym.And(inPkg, nameOK)), "C17.P1.recursive-matches-exactly")
+	// never a sibling such as p2
+	sib := TargetLabel{Package: p + "2", Name: l.Name}
+	if p != "" {
+		sym.Assert(!pat.Matches(sib), "C17.P1.no-sibling")
+	}
+}
+
+// P2/P3: //p:all, //p:..., //p:n, //p (shorthand), :n (relative)
+func VerifC17_P2() {
+	p := sym.StringNAlpha("p", bound(3, 5), pkgAlpha)
+	sym.Assume(cleanPkg(p))
+	form := sym.Choice("form", 5) // 0 //p:all 1 //p:... 2 //p:n 3 //p 4 :n (cur=p)
+	n := ""
+	var text string
+	switch form {
+	case 0:
+		text = "//" + p + ":all"
+	case 1:
+		text = "//" + p + ":..."
+	case 2:
+		n = sym.StringNAlpha("n", 2, nameAlpha)
+		sym.Assume(validNameOracle(n))
+		sym.Assume(sym.Not(sym.StrEq(n, "all")))
+		text = "//" + p + ":" + n
+	case 3:
+		sym.Assume(sym.Not(sym.StrEq(p, "")))
+		text = "//" + p
+	case 4:
+		n = sym.StringNAlpha("n", 2, nameAlpha)
+		sym.Assume(validNameOracle(n))
+		sym.Assume(sym.Not(sym.StrEq(n, "all")))
+		text = ":" + n
+	}
+	pat, err := ParseTargetPattern(p, text)
+	sym.Assert(err == nil, "C17.P2.parses")
+	if err != nil {
+		return
+	}
+	l := probeLabel()
+	samePkg := sym.StrEq(l.Package, p)
+	var want bool
+	switch form {
+	case 0, 1:
+		want = samePkg
+	case 2, 4:
+		want = sym.And(samePkg, sym.StrEq(l.Name, n))
+	case 3:
+		// shorthand: name is the last component of p
+		want = sym.And(samePkg, sym.Or(sym.StrEq(p, l.Name), sym.HasSuffix(p, "/"+l.Name)))
+	}
+	sym.Reach("P2.checked")
+	sym.Assert(sym.Iff(pat.Matches(l), want), "C17.P2.nonrecursive-matches-exactly")
+}
+
+// P4: printing then re-parsing a pattern preserves the set of labels it matches
+func VerifC17_P4() {
+	text := sym.StringNAlpha("text", bound(6, 8), "a/.:l")
+	cur := "c"
+	pat, err := ParseTargetPattern(cur, text)
+	if err != nil {
+		return
+	}
+	// documented precondition: package paths are clean relative paths (no empty components);
+	// e.g. "////:l" (prefix "/") is outside the claim
+	sym.Assume(cleanPkg(pat.prefix))
+	sym.Reach("P4.accepted")
+	pat2, err2 := ParseTargetPattern(cur, pat.String())
+	sym.Assert(err2 == nil, "C17.P4.reparse-ok")
+	if err2 != nil {
+		return
+	}
+	l := probeLabel()
+	sym.Assert(sym.Iff(pat.Matches(l), pat2.Matches(l)), "C17.P4.print-parse-preserves-matches")
+}
+
+// P5: TargetPatternFromLabel(l) matches exactly l; match-all matches everything
+func VerifC17_P5() {
+	pkg := sym.StringAlpha("l.pkg", 4, pkgAlpha)
+	name := sym.StringAlpha("l.name", 3, nameAlpha)
+	sym.Assume(validNameOracle(name))
+	sym.Assume(sym.Not(sym.Or(sym.StrEq(name, "all"), sym.StrEq(name, "..."))))
+	l := TargetLabel{Package: pkg, Name: name}
+	probe := probeLabel()
+	pat := TargetPatternFromLabel(l)
+	sym.Assert(sym.Iff(pat.Matches(probe), sym.And(sym.StrEq(probe.Package, pkg), sym.StrEq(probe.Name, name))), "C17.P5.from-label-exact")
+	sym.Assert(GetMatchAllTargetPattern().Matches(probe), "C17.P5.match-all")
+	pats, err := ParsePatternsOrMatchAll("c", nil)
+	sym.Assert(err == nil && len(pats) == 1 && pats[0].Matches(probe), "C17.P5.empty-means-all")
 }
